@@ -13,7 +13,7 @@ KINDS = [("mutex",), ("sem",), ("mutex", "sem"), ("cond",), ("mutex", "cond"), (
 class C39(core.Prop):
     id = "C39"
     drivers = ["mc_peek"]
-    ready = False
+    ready = True
     max_workers = 6
     sizes = {"quick": 100, "thorough": 5000}
     technique = ("property-based testing (Hypothesis): metamorphic relation on real kernel states - a pair of co-enabled transitions "
